@@ -725,7 +725,24 @@ func (env *SpecEnv) call(n *ECall) SVal {
 		if !ok {
 			unsupp("istype(x, \"pkg.Type\" | \"*pkg.Type\")")
 		}
-		T := env.typeByName(s.V)
+		// a type name that no longer exists in the loaded packages: no value has that type (a contract clause guarded by
+		// such an istype is vacuous, not unreadable - a renamed helper type must not raise an alarm by itself)
+		var T types.Type
+		func() {
+			defer func() {
+				if r := recover(); r != nil {
+					if _, isU := r.(unsupported); !isU {
+						panic(r)
+					}
+					T = nil
+				}
+			}()
+			T = env.typeByName(s.V)
+		}()
+		if T == nil {
+			env.e.note("contract names a type that does not exist: " + s.V + " (istype is false)")
+			return gBool(BoolLit(false))
+		}
 		return gBool(Eq(v.V.Fs[0].T, IntLit(typeID(T))))
 	case "dyn":
 		// dyn(x, "*pkg.T"): payload of interface x viewed as that pointer type
@@ -801,6 +818,22 @@ func (env *SpecEnv) call(n *ECall) SVal {
 		default:
 			return SVal{V: scalar(App("unbox_seq", SSeq, Select(Select(env.st().heapGet("LRU:val", valS), id), k))), G: "Seq"}
 		}
+	case "hasmethod":
+		// hasmethod("pkg.T", "Name"): decided statically - the method set of *T holds an exported method of that name (what
+		// encoding/json looks at to pick a type's own MarshalJSON over the structural encoding)
+		tx, ok1 := n.Args[0].(*EStr)
+		mx, ok2 := n.Args[1].(*EStr)
+		if !ok1 || !ok2 {
+			unsupp("hasmethod(\"pkg.T\", \"Name\")")
+		}
+		MT := env.typeByName(tx.V)
+		ms := types.NewMethodSet(types.NewPointer(MT))
+		for i := 0; i < ms.Len(); i++ {
+			if ms.At(i).Obj().Name() == mx.V {
+				return gBool(BoolLit(true))
+			}
+		}
+		return gBool(BoolLit(false))
 	case "implements":
 		// implements(x, "pkg.Iface"): the dynamic type of interface value x implements the named interface - the test a
 		// type switch / type assertion to that interface makes (uninterpreted per interface; nil implements nothing)
@@ -1017,11 +1050,19 @@ func (env *SpecEnv) isNil(v SVal) *Term {
 func (env *SpecEnv) bin(n *EBin) SVal {
 	switch n.Op {
 	case "&&":
-		return gBool(And(env.evalBool(n.L), env.evalBool(n.R)))
+		l := env.evalBool(n.L)
+		if l.isFalse() {
+			return gBool(l) // the right operand may be unreadable exactly because the left one is false (istype guard)
+		}
+		return gBool(And(l, env.evalBool(n.R)))
 	case "||":
 		return gBool(Or(env.evalBool(n.L), env.evalBool(n.R)))
 	case "==>":
-		return gBool(Implies(env.evalBool(n.L), env.evalBool(n.R)))
+		l := env.evalBool(n.L)
+		if l.isFalse() {
+			return gBool(True())
+		}
+		return gBool(Implies(l, env.evalBool(n.R)))
 	case "<==>":
 		return gBool(Eq(env.evalBool(n.L), env.evalBool(n.R)))
 	}
